@@ -26,7 +26,8 @@ Inductive case :=
 | CParse (lines : list bytes) (panicked : bool) (out : list (bytes * gofloat))
          (intended : option (list (bytes * option bytes)))
 | CNeg (lines : list bytes) (offers : list bytes) (default : bytes) (panicked : bool) (r : bytes)
-| CEnc (lines : list bytes) (offers : list bytes) (panicked : bool) (r : bytes).
+| CEnc (lines : list bytes) (offers : list bytes) (panicked : bool) (r : bytes)
+| CHandler (lines : list bytes) (route_offers : list bytes) (panicked : bool) (status : nat) (ran : bool).
 
 Definition spec_matches (sp : spec) (o : bytes * gofloat) : bool :=
   bytes_eqb (sval sp) (fst o) && float_is_q (snd o) (sq sp).
@@ -93,6 +94,18 @@ Definition check_case (c : case) : N :=
     | Some specs =>
       verdict (negb panicked && bytes_eqb r (negotiate_content_type specs offers default))
               (negb panicked && lexmax_b specs offers default r)
+    | None => verdict false (negb panicked)
+    end
+  | CHandler lines offers panicked status ran =>
+    (* through the API handler: nothing acceptable among the route's offers <-> 406 and the handler does not run *)
+    match parse_accept lines with
+    | Some specs =>
+      let acceptable := match specs with [] => true | _ => match scored specs offers with [] => false | _ => true end end in
+      let expect406 := negb acceptable && negb (match offers with [] => true | _ => false end) in
+      verdict (negb panicked &&
+               Bool.eqb expect406 (bytes_eqb (negotiate_content_type specs offers []) [] && negb (match offers with [] => true | _ => false end)) &&
+               Bool.eqb ran (negb expect406) && Bool.eqb (Nat.eqb status 406) expect406)
+              (negb panicked && Bool.eqb ran (negb expect406) && Bool.eqb (Nat.eqb status 406) expect406)
     | None => verdict false (negb panicked)
     end
   | CEnc lines offers panicked r =>
